@@ -23,6 +23,7 @@ type Profile struct {
 	Cascade     bool
 	HostileQ    bool // ids and strings starting with "?"
 	Index       bool // rule patterns that share index prefixes; events instantiated from stored patterns
+	Cron        bool // mostly scheduled rules; ticks
 	Scheduled   bool // some rules have a schedule instead of a when
 	SideEffects bool // some rule actions report their bindings, throw, or write a fact (Env.AddFact)
 	Dispatch    bool // rules with conditions and reporting / failing actions
@@ -501,7 +502,30 @@ func (g *Gen) ixEvent() map[string]interface{} {
 	return ev
 }
 
+var schedules = []string{"+1h", "+90m", "* * * * * * *", "0 0 1 1 * * *", "!2033-01-01T00:00:00Z"}
+
+// cronRule: mostly scheduled rules (one-shot and recurring), some event rules under the same ids.
+func (g *Gen) cronRule() map[string]interface{} {
+	r := map[string]interface{}{}
+	if g.R.Intn(4) == 0 {
+		r["when"] = map[string]interface{}{"pattern": g.smallPattern([]string{"?x"})}
+	} else {
+		r["schedule"] = schedules[g.R.Intn(len(schedules))]
+	}
+	if g.R.Intn(3) == 0 {
+		r["condition"] = map[string]interface{}{"pattern": g.smallPattern([]string{"?y", "?z"})}
+	}
+	r["action"] = g.action()
+	if g.R.Intn(4) == 0 {
+		r["deleteWith"] = []interface{}{g.pick(g.P.Ids)}
+	}
+	return r
+}
+
 func (g *Gen) Rule() map[string]interface{} {
+	if g.P.Cron {
+		return g.cronRule()
+	}
 	if g.P.Dispatch {
 		return g.dispatchRule()
 	}
@@ -578,7 +602,7 @@ func (g *Gen) weighted() string {
 	panic("weights")
 }
 
-var opOrder = []string{"BadRequest", "CreateLocation", "AddFact", "RemFact", "GetFact", "SearchFacts", "AddRule", "RemRule", "GetRule",
+var opOrder = []string{"Tick", "Restart", "BadRequest", "CreateLocation", "AddFact", "RemFact", "GetFact", "SearchFacts", "AddRule", "RemRule", "GetRule",
 	"EnableRule", "SetParents", "GetParents", "Clear", "StateSize", "ListRules", "SearchRules",
 	"ProcessEvent", "SetReadOnly", "Reload", "Sleep", "SetKey"}
 
@@ -593,7 +617,7 @@ func (g *Gen) Next() Op {
 	switch op.Op {
 	case "AddFact":
 		op.Id, op.Val = id, g.Fact()
-		if g.P.Dispatch {
+		if g.P.Dispatch || g.P.Cron {
 			op.Val = g.smallFact()
 		}
 		if g.R.Intn(6) == 0 {
@@ -634,7 +658,7 @@ func (g *Gen) Next() Op {
 				op.Val = ev
 			}
 		}
-		if g.P.Dispatch {
+		if g.P.Dispatch || g.P.Cron {
 			op.Val = g.dispatchEvent()
 		}
 		if g.P.Index {
@@ -644,6 +668,8 @@ func (g *Gen) Next() Op {
 		delete(op.Val, "expires")
 	case "SetReadOnly":
 		op.Flag = g.R.Intn(2) == 0
+	case "Tick":
+		op.Id = id
 	case "BadRequest":
 		op.Id = g.pick([]string{"missing-location", "missing-fact", "fact-not-a-map", "unknown-uri", "empty-body", "location-not-string"})
 	case "SetKey":
